@@ -10,6 +10,7 @@ from typing import Dict, List, Optional, Set, Tuple
 from sa.jsonkeys import ReaderInfo, reader_info
 from sa.loader import AnalysisError, Unsupported, dotted_name, norm_text
 from sa.report import where
+from sa.util import backward_slice, local_assignments
 
 CLI = 'torchtree.cli'
 
@@ -1202,6 +1203,46 @@ def check_jacobian_terms_are_evaluable(ctx, rep):
         rep.incomplete('C19.J', 'create_jacobians::torchtree-transforms', '', f'no torchtree transform found in the TransformedParameter literals of the scanned builders (roots: {sorted(scanned_roots)})')
 
 
+def check_tree_initial_values(ctx, rep):
+    """C19.U (addition) — initial values of the node-height parameters written by create_tree_model.  The parameters live in the space of the (non-linear) height transform;
+    a value stored under tree_model[<ratios|shifts>]['tensor'] is either read back from an instantiated tree model (`obj._internal_heights.tensor…`) or the inverse transform
+    of node heights (`obj.transform.inv(heights)`).  Arithmetic on the parameter vector itself (rescaling shifts or ratios) is not a rescaling of the heights unless every tip
+    is at height zero."""
+    m = ctx.prog.module(f"{CLI}.evolution")
+    fn = m.functions.get('create_tree_model')
+    if fn is None:
+        raise AnalysisError('create_tree_model not found')
+    defs = local_assignments(fn)
+    n = 0
+    for st in ast.walk(fn):
+        if not (isinstance(st, ast.Assign) and len(st.targets) == 1 and isinstance(st.targets[0], ast.Subscript)):
+            continue
+        t = st.targets[0]
+        if not (isinstance(t.slice, ast.Constant) and t.slice.value == 'tensor' and isinstance(t.value, ast.Subscript) and isinstance(t.value.slice, ast.Constant)
+                and t.value.slice.value in ('shifts', 'ratios', 'root_height')):
+            continue
+        n += 1
+        v = st.value
+        while isinstance(v, ast.Call) and isinstance(v.func, ast.Attribute) and v.func.attr in ('tolist', 'clone', 'detach'):
+            v = v.func.value
+        through_inverse = isinstance(v, ast.Call) and isinstance(v.func, ast.Attribute) and v.func.attr in ('inv', '_inverse') and isinstance(v.func.value, ast.Attribute) and v.func.value.attr == 'transform'
+        read_back = isinstance(v, (ast.Attribute, ast.Subscript)) and '_internal_heights.tensor' in ast.unparse(v) and not any(isinstance(x, ast.BinOp) for x in ast.walk(v))
+        arithmetic_on_parameters = any(isinstance(x, ast.BinOp) for x in ast.walk(v)) and any(
+            '_internal_heights' in ast.unparse(e) for e in backward_slice(v, defs))
+        key = f"create_tree_model::{t.value.slice.value}.tensor#{st.lineno - fn.lineno}"
+        if through_inverse or read_back:
+            rep.ok('C19.U', key, where(m, st), {'value': norm_text(st.value)[:70], 'class': 'inverse transform of heights' if through_inverse else 'read back from the instantiated model'})
+        elif arithmetic_on_parameters:
+            rep.bad('C19.U', key, where(m, st), {'value': norm_text(st.value)[:70]},
+                    f"create_tree_model stores `{norm_text(st.value)[:60]}` as initial {t.value.slice.value}: arithmetic on the parameter vector of the height transform; scaling "
+                    f"the {t.value.slice.value} does not scale the node heights (heights are max(children) + shift with tips at their sampling dates), so the requested root height "
+                    f"is not the one the emitted model starts from")
+        else:
+            rep.undecided('C19.U', key, where(m, st), f"initial value `{norm_text(st.value)[:60]}` neither read back from a model nor an inverse transform")
+    if n < 2:
+        rep.incomplete('C19.U', 'create_tree_model::initial-values', '', f"only {n} stores of initial height parameters found")
+
+
 def run(ctx, rep):
     rep.explanation = (
         "Reader table: for every registered class the keys its from_json dereferences on every path to a normal return (CFG must-pass, helpers inlined) and "
@@ -1221,11 +1262,13 @@ def run(ctx, rep):
     rep.rule('C19.V', "no identifier / reference in the builders is built from the leftover loop variable of an earlier loop")
     rep.rule('C19.G', "an optional command-line option written into the size of a parameter is required by check_arguments under every option combination that reaches the site")
     rep.rule('C19.D', "the object a reference-typed key resolves to (same id, co-reachable option values) has every member the referencing class reads on it")
+    rep.rule('C19.O', "values passed between builders through private attributes of the option object are written (dominating call) before the builder that reads them with a silent fallback is called")
+    rep.rule('C19.Z', "an option whose value 0 and whose absence (None) are told apart elsewhere in the builders is never tested by bare truthiness")
     rep.rule('C19.N', "tensor-only torch functions are never applied to a plain Python number in the builders")
     rep.not_decided += ["finiteness of density and gradient at the initial point", "pairwise option coverage at run time", "plugins"]
     from props import c19_ids, c19_flow
-    steps = ((check_types_and_keys, 'C19.K'), (check_jacobians, 'C19.J'), (check_jacobian_terms_are_evaluable, 'C19.J'), (check_make_unconstrained, 'C19.U'), (check_fixed_parameters_stay_fixed, 'C19.U'), (check_unconstraining_covers_the_configuration, 'C19.U'), (check_advi_transforms, 'C19.U'), (c19_ids.check_ids, 'C19.R'),
-             (c19_flow.check_exhaustive, 'C19.E'), (c19_flow.check_pynum, 'C19.N'), (check_stale_loop_variables, 'C19.V'), (c19_ids.check_none_sizes, 'C19.G'), (c19_ids.check_reference_types, 'C19.D'))
+    steps = ((check_types_and_keys, 'C19.K'), (check_jacobians, 'C19.J'), (check_jacobian_terms_are_evaluable, 'C19.J'), (check_make_unconstrained, 'C19.U'), (check_fixed_parameters_stay_fixed, 'C19.U'), (check_tree_initial_values, 'C19.U'), (check_unconstraining_covers_the_configuration, 'C19.U'), (check_advi_transforms, 'C19.U'), (c19_ids.check_ids, 'C19.R'),
+             (c19_flow.check_exhaustive, 'C19.E'), (c19_flow.check_pynum, 'C19.N'), (check_stale_loop_variables, 'C19.V'), (c19_ids.check_none_sizes, 'C19.G'), (c19_ids.check_reference_types, 'C19.D'), (c19_ids.check_side_channels, 'C19.O'), (c19_ids.check_zero_versus_missing, 'C19.Z'))
     for f, rule in steps:
         try:
             f(ctx, rep)
